@@ -46,6 +46,12 @@ type c07Scn struct {
 	Enum string `json:"enum,omitempty"`
 	// ViaContext: run through interp.New + ExecuteContext with a context that is never cancelled
 	ViaContext bool `json:"via_context,omitempty"`
+	// Warm: the Interpreter is reused: it first ran the same program over a small input with the
+	// record separator WarmRS; WarmReset: ResetVars is called in between (and a newline RS is then
+	// left to its default instead of being passed in Vars). Applies to runs that read standard input.
+	Warm      bool       `json:"warm,omitempty"`
+	WarmRS    core.Bytes `json:"warm_rs,omitempty"`
+	WarmReset bool       `json:"warm_reset,omitempty"`
 }
 
 type c07Rec struct {
@@ -98,7 +104,7 @@ func (c07Engine) Level(tier string) string {
 	return "fault_enumeration"
 }
 func (c07Engine) Rule() string {
-	return "scenario = (read mode, RS, input bytes, delivery schedule); RS drawn from newline / every single byte / empty / multi-byte char / a regex grammar with growing, alternating and empty matches; inputs over an alphabet derived from RS; 'allchunk' scenarios enumerate every composition of the input (x EOF-with-data), 'splits' every single split point and 1-byte delivery, others draw one schedule (zero-length reads, buffer-edge inputs of 64-200 KiB, injected read errors). One evaluation = one execution of the real interpreter under one schedule. Distinct = distinct event-log hash (reads as seen by the scanner + observed records); non-trivial = the input produced at least one record and the schedule split the input at least once."
+	return "scenario = (read mode, RS, input bytes, delivery schedule); RS drawn from newline / every single byte / empty / multi-byte char / a regex grammar with growing, alternating and empty matches; inputs over an alphabet derived from RS; 'allchunk' scenarios enumerate every composition of the input (x EOF-with-data), 'splits' every single split point and 1-byte delivery, others draw one schedule (zero-length reads, buffer-edge inputs of 64-260 KiB, injected read errors). One evaluation = one execution of the real interpreter under one schedule. Distinct = distinct event-log hash (reads as seen by the scanner + observed records); non-trivial = the input produced at least one record and the schedule split the input at least once."
 }
 func (c07Engine) Assumptions() []string {
 	return []string{
@@ -275,6 +281,10 @@ func (c07Engine) Gen(r *core.Rand, tier string, i int) any {
 	sc := &c07Scn{Mode: "main", Where: "stdin"}
 	sc.ViaContext = r.Chance(1, 5)
 	sc.RS = c07GenRS(r)
+	if r.Chance(1, 6) {
+		sc.Warm, sc.WarmReset = true, r.Bool()
+		sc.WarmRS = core.Bytes(core.Pick(r, []string{"", ";", "x+", "\n", "ab", "\xff", "é"}))
+	}
 	enumMax := 8
 	if tier == "thorough" {
 		enumMax = 12
@@ -334,7 +344,7 @@ func (c07Engine) Gen(r *core.Rand, tier string, i int) any {
 
 // c07GenBig plants separators and partial matches around the scanner's buffer edges.
 func c07GenBig(r *core.Rand, rs []byte) c07Src {
-	edge := core.Pick(r, []int{65536, 65536, 131072})
+	edge := core.Pick(r, []int{65536, 65536, 131072, 196608, 262144}) // multiples of the 64 KiB read size
 	unit := []byte("xxxxxxxxxxxxxxx")
 	sep := rs
 	if len(rs) > 1 && utf8.RuneCountInString(string(rs)) > 1 || len(rs) == 0 {
@@ -561,7 +571,33 @@ func c07Exec(sc *c07Scn, ds []core.Delivery, log *core.Log) *c07Obs {
 	case sc.Where == "files2":
 		cfg.Args = []string{"f0", "f1"}
 	}
-	if sc.ViaContext {
+	if sc.Warm && sc.Where == "stdin" && !needFS {
+		it, ierr := interp.New(prog)
+		if ierr != nil {
+			core.Fatal("C07: New: %v", ierr)
+		}
+		warm := *cfg
+		warm.Stdin = bytes.NewReader([]byte("a b;c\nxx d\n\n\ne;\n"))
+		warm.Vars = []string{"RS", string(sc.WarmRS)}
+		c07cur = &c07Obs{}
+		wres := guarded(func() (int, error) { return it.Execute(&warm) })
+		c07cur = obs
+		if wres.Panic != "" {
+			obs.Res = wres
+		} else {
+			if sc.WarmReset {
+				it.ResetVars()
+				if string(sc.RS) == "\n" {
+					cfg.Vars = nil
+				}
+			}
+			if sc.ViaContext {
+				obs.Res = guarded(func() (int, error) { return it.ExecuteContext(core.NewSimContext(), cfg) })
+			} else {
+				obs.Res = guarded(func() (int, error) { return it.Execute(cfg) })
+			}
+		}
+	} else if sc.ViaContext {
 		it, ierr := interp.New(prog)
 		if ierr != nil {
 			core.Fatal("C07: New: %v", ierr)
@@ -739,7 +775,11 @@ func c07Check(sc *c07Scn, datas [][]byte, ds []core.Delivery, obs, base *c07Obs,
 		for i := range ds {
 			parts = append(parts, fmt.Sprintf("src%d=%q chunks=%v eof_with_data=%v", i, clip(string(datas[i]), 60), clipInts(ds[i].Chunks), ds[i].EOFWithData))
 		}
-		return fmt.Sprintf("mode=%s/%s via_context=%v RS=%q %s", sc.Mode, sc.Where, sc.ViaContext, rs, strings.Join(parts, " "))
+		warm := ""
+		if sc.Warm {
+			warm = fmt.Sprintf(" warm_rs=%q warm_reset=%v", string(sc.WarmRS), sc.WarmReset)
+		}
+		return fmt.Sprintf("mode=%s/%s via_context=%v%s RS=%q %s", sc.Mode, sc.Where, sc.ViaContext, warm, rs, strings.Join(parts, " "))
 	}
 	// Oracle 5: no panic.
 	if obs.Res.Panic != "" {
@@ -1037,6 +1077,12 @@ func (c07Engine) Shrink(scAny any) []any {
 	}
 	if sc.ViaContext {
 		add(func(c *c07Scn) { c.ViaContext = false })
+	}
+	if sc.Warm {
+		add(func(c *c07Scn) { c.Warm, c.WarmRS, c.WarmReset = false, nil, false })
+		if sc.WarmReset {
+			add(func(c *c07Scn) { c.WarmReset = false })
+		}
 	}
 	// simpler mode / source
 	if sc.Mode != "main" || sc.Where != "stdin" {
